@@ -150,9 +150,41 @@ def _case_e2e(p):
     return out
 
 
-CASES = {"e2e": case_e2e}
+def case_two_pairings(p):
+    """Two pairings with different accessories in one process (BLE keeps a resumable session per pairing).  What one pairing learnt in its
+    session is its own: the other pairing's first pair-verify is a full one - it has no session to resume - and ends with keys the OTHER
+    accessory derived."""
+    from vt.env.blerig import BleRig
+
+    out = []
+    seed = p.get("seed", 0)
+    a = BleRig(seed=seed)
+    try:
+        a.run(a.pairing.get_characteristics([(1, 10)]), horizon=120)
+        if not a.acc.m3_ok:
+            return [("e2e:ble:honest-session-does-not-interoperate", {"which": "first pairing"})]
+        sid_a = getattr(a.pairing, "_session_id", None)
+    finally:
+        a.close()
+    b = BleRig(seed=seed + 11, acc_id=b"A1:B2:C3:D4:E5:F6")
+    try:
+        try:
+            r = b.run(b.pairing.get_characteristics([(1, 10)]), horizon=120)
+        except Exception as e:  # noqa: BLE001
+            return [(f"e2e:ble:second-pairing-in-the-process-cannot-connect:{type(e).__name__}", {"err": str(e)[:160]})]
+        if getattr(b.acc, "resume_requests", 0):
+            out.append(("e2e:ble:pairing-without-an-earlier-session-asks-to-resume-one", {"resume_requests": b.acc.resume_requests, "first_pairing_session_id": bytes(sid_a).hex() if sid_a else None}))
+        if not b.acc.m3_ok or b.acc.errors or r != {(1, 10): {"value": 50}}:
+            out.append(("e2e:ble:second-pairing-session-does-not-interoperate", {"errors": b.acc.errors}))
+    finally:
+        b.close()
+    return out
+
+
+CASES = {"e2e": case_e2e, "two_pairings": case_two_pairings}
 
 
 def plan():
     return [("e2e", [{"rec": 0, "eph": 0, "style": tr, "transport": tr, "fault": f}]) for tr in ("ip", "coap", "ble") for f in FAULTS] + \
-        [("e2e", [{"rec": 0, "eph": 0, "style": "ip", "transport": "ip", "fault": f}]) for f in IP_ONLY_FAULTS]
+        [("e2e", [{"rec": 0, "eph": 0, "style": "ip", "transport": "ip", "fault": f}]) for f in IP_ONLY_FAULTS] + \
+        [("two_pairings", [{"rec": 0, "eph": 0, "style": "ble", "transport": "ble", "fault": "two-pairings"}])]
